@@ -104,6 +104,21 @@ def r_payload_complete(ctx):
         ctx.violation('%s:member-component-without-self' % comp.qualname, comp.loc(mdefs[0] if mdefs else call),
                       'the member set stored in the snapshot (`%s`) does not contain the node that writes it: a follower installing the snapshot silently drops its leader from its '
                       'member set (majorities are then computed over different sets)' % (unparse(mdefs[0].value) if mdefs else '?'), instance=inst)
+    # ... and nobody else: a loader installs this set as its voters, so observers / merely connected nodes must not be in it
+    inst = 'member component holds voters only'
+    ctx.tick()
+    foreign = []
+    for d in mdefs:
+        for x in ast.walk(d.value):
+            a = P.self_attr(x, comp.self_name)
+            if a is not None and a in (R.observers, R.connected) and a not in foreign:
+                foreign.append(a)
+    if foreign:
+        ctx.violation('%s:member-component-includes-non-voters' % comp.qualname, comp.loc(mdefs[0]),
+                      'the member set stored in the snapshot (`%s`) also takes nodes from self.%s: a node that loads the snapshot installs them as voters, and read-only / merely '
+                      'connected nodes then count towards election and commit majorities' % (unparse(mdefs[0].value), ', self.'.join(foreign)), instance=inst)
+    elif mdefs:
+        ctx.ok(inst, comp.loc(mdefs[0]), unparse(mdefs[0].value))
     # the two entries are read at lastApplied-1, count 2
     fetch = [d for d in U.walk_no_nested(comp.node) if isinstance(d, ast.Assign) and any(isinstance(t, ast.Name) and t.id == entries_var for t in d.targets)]
     inst = 'snapshot position = (lastApplied - 1, lastApplied)'
@@ -966,4 +981,73 @@ def r_consumer_payload(ctx):
         ctx.ok(inst, loader.loc(rl[0]), unparse(dc))
     else:
         ctx.violation('%s:consumer-states-not-restored-by-position' % loader.qualname, loader.loc(rl[0] if rl else None), whyl, instance=inst)
+    ctx.expect_min(2)
+
+
+@rule('R-fork-child-exits', 'in the forking dump mode the process image is duplicated only to write the file: os._exit is reached '
+                            'only in the forked child, and the forked child never returns from serialize()')
+def r_fork_child_exits(ctx):
+    """A child that returns from serialize() goes on running as a second copy of the node (same identity, same sockets);
+    an os._exit() reached without a fork terminates the node itself after writing the dump.  Both pass tests that only
+    look at the dump file."""
+    P = ctx.P
+    S = P.cls('Serializer')
+    ser = S.methods.get('serialize')
+    ctx.require(ser is not None, 'Serializer.serialize gone')
+    ex = U.explorer(ctx, ser)
+    cfg = ex.cfg
+    forks = [c for c in P.calls_in(ser) if unparse(c.func) in ('os.fork', 'fork')]
+    exits = [c for c in P.calls_in(ser) if unparse(c.func) in ('os._exit', '_exit')]
+    if not forks:
+        ctx.require(not exits, 'os._exit without any fork in serialize()')
+        ctx.ok('serialize() does not fork', ser.loc(), 'nothing to pair')
+        ctx.expect_min(1)
+        return
+    fork_assign = None
+    for n in ast.walk(ser.node):
+        if isinstance(n, ast.Assign) and n.value is forks[0] and len(n.targets) == 1 and isinstance(n.targets[0], ast.Name):
+            fork_assign = n
+    ctx.require(fork_assign is not None, 'the result of os.fork() is not kept in a local')
+    pid = fork_assign.targets[0].id
+    fork_nodes = [n.id for n in U.nodes_containing(cfg, forks[0])]
+    exit_nodes = [n.id for c in exits for n in U.nodes_containing(cfg, c)]
+
+    def ev(m):
+        return ('fork',) if m.id in fork_nodes else ()
+    res = ex.run(track=ev, stop=exit_nodes, follow_exc=True)
+    # (a) os._exit only after a fork, in the child
+    inst = 'os._exit is reached only in the forked child'
+    bad = None
+    n_states = 0
+    child = U.goal(ex, '%s == 0' % pid)
+    for e in exit_nodes:
+        for fs, cnt in res.cstates.get(e, ()):
+            n_states += 1
+            ctx.tick()
+            if dict(cnt).get('fork', 0) < 1:
+                bad = (e, fs, 'no fork happened on this path: the node process itself exits after writing the dump')
+            elif oracle.entails(fs, U.goal(ex, '%s != 0' % pid)):
+                bad = (e, fs, 'this is the parent')
+    if bad is not None:
+        ctx.violation('Serializer.serialize:exit-outside-child', ser.loc(cfg.nodes[bad[0]].ast), 'os._exit() is reachable where %s: %s' % (bad[2], res.path_str(bad[0], bad[1])), instance=inst)
+    else:
+        ctx.ok(inst, ser.loc(exits[0]) if exits else ser.loc(), '%d path classes reach os._exit, all behind fork() with %s == 0 possible' % (n_states, pid))
+    # (b) the child never leaves serialize() normally or by an exception
+    inst = 'the forked child never returns from serialize()'
+    bad = None
+    n_states = 0
+    for end in (cfg.exit.id, cfg.raise_exit.id):
+        for fs, cnt in res.cstates.get(end, ()):
+            if dict(cnt).get('fork', 0) < 1:
+                continue
+            n_states += 1
+            ctx.tick()
+            if not oracle.entails(fs, U.goal(ex, '%s != 0' % pid)):
+                bad = (end, fs)
+    if bad is not None:
+        ctx.violation('Serializer.serialize:child-returns', ser.loc(fork_assign),
+                      'after os.fork() a path leaves serialize() %s without `%s != 0` being known: the child process goes on running as a second copy of the node: %s'
+                      % ('normally' if bad[0] == cfg.exit.id else 'by an exception', pid, res.path_str(bad[0], bad[1])), instance=inst)
+    else:
+        ctx.ok(inst, ser.loc(fork_assign), '%d path classes leave serialize() after the fork, all in the parent' % n_states)
     ctx.expect_min(2)
